@@ -6140,10 +6140,13 @@ class LazyListContainer(list):
             return [self[i] for i in range(*index.indices(self._count))]
         if isinstance(index, int) and -self._count <= index < 0:
             index += self._count
+        if isinstance(index, int) and not 0 <= index < self._count:
+            raise IndexError("list index out of range")
         if index in self._values:
             return self._values[index]
         fallback = stream_tell(self._stream, self._path)
         stream_seek(self._stream, self._offsets[index], 0, self._path) # KeyError
+        self._context._index = index
         parseret = self._subcon._parsereport(self._stream, self._context, self._path)
         stream_seek(self._stream, fallback, 0, self._path)
         self._values[index] = parseret
@@ -6204,6 +6207,7 @@ class LazyArray(Subconstruct):
         offsets = {0: offset}
         values = {}
         for i in range(count):
+            context._index = i
             try:
                 offset += sc._actualsize(stream, context, path)
                 stream_seek(stream, offset, 0, path)
